@@ -781,8 +781,8 @@ pub fn c16_strategy(thorough: bool) -> BoxedStrategy<C16Case> {
     let op = prop_oneof![
         4 => (0u8..3).prop_map(|k| C16Op::Create { k }),
         2 => (0u8..3).prop_map(|k| C16Op::Delete { k }),
-        3 => (0u8..3, any::<bool>()).prop_map(|(k, incompatible)| C16Op::SetIncompatible { k, incompatible }),
-        2 => (0u8..3, any::<bool>()).prop_map(|(k, other)| C16Op::SetPartition { k, other }),
+        5 => (prop_oneof![3 => Just(0u8), 1 => 1u8..3], any::<bool>()).prop_map(|(k, incompatible)| C16Op::SetIncompatible { k, incompatible }),
+        3 => (prop_oneof![3 => Just(0u8), 1 => 1u8..3], any::<bool>()).prop_map(|(k, other)| C16Op::SetPartition { k, other }),
         1 => (0u8..3).prop_map(|k| C16Op::Crash { k }),
         3 => Just(C16Op::ReadStatus),
         2 => Just(C16Op::Write),
@@ -870,7 +870,8 @@ async fn c16_scenario(c: C16Case) -> C16Obs {
             exec::sleep_ms($ms).await
         };
     }
-    let all_ops: Vec<C16Op> = c.ops.iter().cloned().chain([C16Op::Write, C16Op::ReadStatus]).collect();
+    // every history starts with one remote endpoint so that the generated ops have something to act on
+    let all_ops: Vec<C16Op> = [C16Op::Create { k: 0 }].into_iter().chain(c.ops.iter().cloned()).chain([C16Op::Write, C16Op::ReadStatus]).collect();
     'ops: for (opi, op) in all_ops.iter().enumerate() {
         o.ops_done = opi;
         match op {
@@ -946,9 +947,12 @@ async fn c16_scenario(c: C16Case) -> C16Obs {
             C16Op::SetIncompatible { k, incompatible } => {
                 let k = *k as usize;
                 let Some(r) = remotes[k].as_mut() else { continue };
-                if r.crashed || r.incompatible == *incompatible {
+                if r.crashed {
                     continue;
                 }
+                // the op toggles: repeated ops on one endpoint walk it through
+                // compatible -> incompatible -> compatible -> incompatible ... (the flag only seeds the first step)
+                let incompatible = &(if r.incompatible == *incompatible { !*incompatible } else { *incompatible });
                 let res = if let Some((_, rd)) = &r.reader {
                     rd.set_qos(QosKind::Specific(c16_rqos(*incompatible))).await
                 } else if let Some((_, w)) = &r.writer {
@@ -968,6 +972,9 @@ async fn c16_scenario(c: C16Case) -> C16Obs {
                 }
                 if !now_matched && r.matched {
                     r.left_at = Some(exec::now_ns());
+                    if classes.contains("rematch_after_qos_change") {
+                        classes.insert("unmatch_by_qos_change_again_after_rematch".to_string());
+                    }
                     classes.insert("unmatch_by_qos_change".to_string());
                 }
                 r.matched = now_matched;
@@ -976,9 +983,10 @@ async fn c16_scenario(c: C16Case) -> C16Obs {
             C16Op::SetPartition { k, other } => {
                 let k = *k as usize;
                 let Some(r) = remotes[k].as_mut() else { continue };
-                if r.crashed || r.group_partition_other == *other {
+                if r.crashed {
                     continue;
                 }
+                let other = &(if r.group_partition_other == *other { !*other } else { *other });
                 let part = PartitionQosPolicy { name: if *other { vec!["elsewhere".to_string()] } else { vec![] } };
                 let res = if let Some((s, _)) = &r.reader {
                     s.set_qos(QosKind::Specific(SubscriberQos { partition: part, ..Default::default() })).await
